@@ -1,4 +1,4 @@
-import TwistedModel.Ssh.Packet
+import TwistedModel.Ssh.Rekey
 /-!
 Driver glue for C35.  One op: the whole pipeline sender → stream → (tamper) → segments → receiver.
 
@@ -10,9 +10,21 @@ Driver glue for C35.  One op: the whole pipeline sender → stream → (tamper) 
   may be `!` = raised); mac table `seq:packet:tag;…`; ver table `seq:packet:mac:0|1;…`.
 
   → `wire=<hex>|ev=<V:hex | M<type>:hex | D<reason>:hex>,…|ok=<0|1>` (`ok`: every script consumed exactly)
+
+Second op: a history of the sending transport with key (re-)exchanges (`TwistedModel/Ssh/Rekey.lean`).
+
+  `C35 hist <seq0> <gv> <ident> <ops> <cuts> <tamper> <sepochs> <repochs>`
+
+  ops `,`-separated: `s:type:data:pad` sendPacket · `k:20:data:pad` sendKexInit (`k` alone: the call that raises) ·
+  `p:20:data:pad` ssh_KEXINIT answering with our KEXINIT (`p` alone: ours is already out) · `y:21:-:pad` _keySetup · `n` _newKeys;
+  sepochs `|`-separated `bs/enc/mac/comp` (the first is in use at the start, the others are taken into use by the `n`s in
+  order; comp `id` | script | `keep` = compressor object left as it is); repochs `bs/ms/dec/ver/decomp` likewise, taken into
+  use by the receiver each time it dispatches NEWKEYS.
+
+  → `!raised <Name>` when the sender raised, otherwise as above.
 -/
 namespace Twisted.Drv.C35
-open Twisted.Py Twisted.Ssh.Packet
+open Twisted.Py Twisted.Ssh.Packet Twisted.Ssh.Rekey
 
 def splitList (s : String) (sep : String) : List String := if s = "-" then [] else s.splitOn sep
 
@@ -69,6 +81,64 @@ def decTamper (s : String) : Option (Option (Nat × UInt8)) :=
     pure (some (o, UInt8.ofNat x))
   | _ => none
 
+/-- an op token; `true`: the message was given -/
+def decOp (s : String) : Option (Bool × Op) :=
+  let dummy : Msg := { mt := 20, data := [], pad := [] }
+  match s.splitOn ":" with
+  | ["n"] => some (true, Op.newKeys)
+  | ["k"] => some (false, Op.kexInit dummy)
+  | ["p"] => some (false, Op.peerKexInit dummy)
+  | [k, t, d, p] => do
+    let m ← decMsg (t ++ ":" ++ d ++ ":" ++ p)
+    if k = "s" then pure (true, Op.send m)
+    else if k = "k" then (if m.mt = 20 then pure (true, Op.kexInit m) else none)
+    else if k = "p" then (if m.mt = 20 then pure (true, Op.peerKexInit m) else none)
+    else if k = "y" then (if m.mt = 21 ∧ m.data = [] then pure (true, Op.keySetup m.pad) else none)
+    else none
+  | _ => none
+
+def decZ (s : String) : Option (Option Script) :=
+  if s = "keep" then some none else (decScript s).map some
+
+def decSEpoch (s : String) : Option (SEpoch Script Script) :=
+  match s.splitOn "/" with
+  | [bs, enc, mac, comp] => do
+    let bs ← bs.toNat?
+    let enc ← decScript enc
+    let macT ← (splitList mac ";").mapM decMac
+    let z ← decZ comp
+    pure { bs := bs, enc := Script.stepB, mac := lookupMac macT, es := enc, z := z.map fun c => (Script.stepB, c) }
+  | _ => none
+
+def decREpoch (s : String) : Option (REpoch Script Script) :=
+  match s.splitOn "/" with
+  | [bs, ms, dec, ver, decomp] => do
+    let bs ← bs.toNat?
+    let ms ← ms.toNat?
+    let dec ← decScript dec
+    let verT ← (splitList ver ";").mapM decVer
+    let z ← decZ decomp
+    pure { bs := bs, ms := ms, dec := Script.stepB, verify := lookupVerify verT, ds := dec, z := z.map fun c => (Script.step, c) }
+  | _ => none
+
+/-- the history step by step (the same as `kRun`), checking at every `_newKeys` that the scripts of the
+    algorithms being replaced were consumed exactly; `none`: an op that needs its message came without it -/
+def runOps (K : KSender Script Script) : List (Bool × Op) → List Bytes → Bool →
+    Option (Except String (KSender Script Script × List Bytes × Bool))
+  | [], acc, ok => some (.ok (K, acc, ok))
+  | (given, op) :: ops, acc, ok =>
+    let needs : Bool := match op with
+      | .kexInit _ => K.kex == Kex.none
+      | .peerKexInit _ => K.kex == Kex.none
+      | _ => false
+    if needs && !given then none else
+    let ok' : Bool := match op, K.future with
+      | .newKeys, e :: _ => ok && K.s.es.done && (e.z.isNone || K.s.cs.done)
+      | _, _ => ok
+    match kStep K op with
+    | .error e => some (.error e)
+    | .ok r => runOps r.1 ops (acc ++ r.2) ok'
+
 def showEv : Ev → String
   | .version v => "V:" ++ hex v
   | .msg t p => "M" ++ toString t.toNat ++ ":" ++ hex p
@@ -115,6 +185,50 @@ def handle (args : List String) : String :=
       let evs := feedAll RA r0 segs
       if fin.2 ≠ evs then none
       let ok := sent.1.es.done && sent.1.cs.done && fin.1.ds.done && fin.1.zs.done
+      pure ("wire=" ++ hex wire ++ "|ev=" ++ ",".intercalate (evs.map showEv) ++ "|ok=" ++ (if ok then "1" else "0"))
+    parsed.getD "bad-op"
+  | ["hist", seq0, gv, ident, ops, cuts, tam, sepochs, repochs] =>
+    let parsed : Option String := do
+      let seq0 ← seq0.toNat?
+      let gv ← if gv = "1" then some true else if gv = "0" then some false else none
+      let ident ← unhex ident
+      let ops ← (splitList ops ",").mapM decOp
+      let cuts ← (splitList cuts ",").mapM String.toNat?
+      let tam ← decTamper tam
+      let seps ← (sepochs.splitOn "|").mapM decSEpoch
+      let reps ← (repochs.splitOn "|").mapM decREpoch
+      let (se0, seFut) ← match seps with
+        | e :: rest => some (e, rest)
+        | [] => none
+      let (re0, reFut) ← match reps with
+        | e :: rest => some (e, rest)
+        | [] => none
+      let (zf0, cs0) ← se0.z
+      let (df0, zs0) ← re0.z
+      let K0 : KSender Script Script :=
+        { s := { seq := seq0, es := se0.es, cs := cs0 }, alg := { bs := se0.bs, enc := se0.enc, mac := se0.mac, comp := zf0 },
+          kex := Kex.none, blocked := [], newKeysSent := false, future := seFut }
+      let sent ← runOps K0 ops [] true
+      match sent with
+      | .error e => pure ("!raised " ++ e)
+      | .ok (Kfin, chunks, okS) =>
+      if (kRun K0 (ops.map (·.2))).2.1 ≠ chunks then none
+      let wire := chunks.flatten
+      let stream := ident ++ wire
+      let stream := match tam with
+        | some (o, x) => tamper stream o x
+        | none => stream
+      if cuts.sum ≠ stream.length then none
+      let R0 : KReceiver Script Script :=
+        { r := { gotVersion := gv, buf := [], first := none, seq := seq0, ds := re0.ds, zs := zs0 },
+          alg := { bs := re0.bs, ms := re0.ms, dec := re0.dec, verify := re0.verify, decomp := df0 }, future := reFut }
+      let segs := cut stream cuts
+      let fin := kFeedAllSt R0 segs
+      let evs := kFeedAll R0 segs
+      if fin.2 ≠ evs then none
+      -- the receiver must have been given exactly the epochs it takes into use
+      if fin.1.future.length ≠ 0 then none
+      let ok := okS && Kfin.s.es.done && Kfin.s.cs.done && fin.1.r.ds.done && fin.1.r.zs.done
       pure ("wire=" ++ hex wire ++ "|ev=" ++ ",".intercalate (evs.map showEv) ++ "|ok=" ++ (if ok then "1" else "0"))
     parsed.getD "bad-op"
   | _ => "bad-op"
